@@ -14,6 +14,19 @@ environment completes the awaitables and in which the event loop runs the contin
 A forest (`Cfg`) is encoded first-child / next-sibling so that it is a plain inductive type;
 the process state of every node is stored in the node.  `Step` is the transition relation: any
 enabled transition may fire, which is a superset of what asyncio can do.
+
+Errors and cancellation.  A position whose completion fails handles the error (`doneErr`, the
+position is nulled) or raises it to its parent (`failed`, non-null).  Two ways in which work
+is given up are kept apart:
+* `gather_with_cancel` (the awaited children of a selection set / list): on the first child that
+  raises, the others are CANCELLED (`fail`: the node is `failing`, every busy descendant is
+  `unwinding`), the gather WAITS until each of them has finished - bottom-up, a cancelled gather
+  waits for its own children too (`unwound`) - and only then re-raises (`failDone`, `bg = false`).
+* `settle_in_background` (a child raises synchronously while the children are being started, or
+  an async iteration is aborted): the node handles the error at once, the children that are
+  already running are NOT cancelled and nobody waits for them (`bg = true`).
+`QuietF` says that nothing is running or unwinding except below a `bg = true` position; the
+serial root (`SStep`) starts the next field only when the earlier ones are completed and quiet.
 -/
 namespace Gql.Async
 
@@ -25,25 +38,44 @@ inductive Val where
   | cons (hd tl : Val)
   deriving Repr, DecidableEq, Inhabited
 
-/-- Own outcome of a position once all its awaitables have completed. `comp isList`: an object
-(children = collected sub-fields, each with a resolver call) or a list (children = items). -/
+/-- Kind of a composite position: an object (children = collected sub-fields, each with a
+resolver call), a list (children = items, all started by the list loop), or a list fed by an
+async iterator (children = items, each gated by one `__anext__` step; a failure while the
+iteration is still going aborts it and leaves earlier items to `settle_in_background`). -/
+inductive CKind where
+  | obj
+  | list
+  | aiter
+  deriving Repr, DecidableEq, Inhabited
+
+/-- Own outcome of a position once all its awaitables have completed. -/
 inductive Res where
   | raise
   | null
   | leaf (n : Nat)
-  | comp (isList : Bool)
+  | comp (k : CKind)
   deriving Repr, DecidableEq, Inhabited
 
-/-- Per-node process state. `doneErr`: completed with `null` because an error was handled here
-(the position was nulled). `failed`: a non-null position raised the error to its parent. -/
+/-- Per-node process state.
+* `failing`: a gather node (`gather_with_cancel`) one of whose children raised: the other
+  children have been cancelled; the node waits until all of them have finished, then re-raises.
+* `doneErr bg`: completed with `null` because an error was handled here (the position was
+  nulled); `failed bg`: a non-null position raised the error to its parent.  `bg = true`: the
+  node completed while children were still running - they are abandoned WITHOUT being
+  cancelled (`settle_in_background`: a synchronous failure in the selection-set / list loop,
+  or an aborted async iteration).
+* `unwinding`: a cancelled task that has not finished yet (its `finally` blocks run, it waits
+  for its own cancelled children); `cancelled`: it has finished. -/
 inductive NodeSt where
   | idle
   | wait (k : Nat)
   | ready
   | run
+  | failing
   | done (v : Val)
-  | doneErr
-  | failed
+  | doneErr (bg : Bool)
+  | failed (bg : Bool)
+  | unwinding
   | cancelled
   deriving Repr, DecidableEq, Inhabited
 
@@ -59,18 +91,17 @@ namespace NodeSt
 
 /-- the task of the node has completed (normally, by raising, or by cancellation) -/
 def settled : NodeSt → Bool
-  | done _ | doneErr | failed | cancelled => true
+  | done _ | doneErr _ | failed _ | cancelled => true
   | _ => false
 
-/-- started and not yet completed -/
-def active : NodeSt → Bool
-  | wait _ | ready | run => true
+/-- started, not cancelled, and not yet completed -/
+def busy : NodeSt → Bool
+  | wait _ | ready | run | failing => true
   | _ => false
 
-/-- children of such a node are no longer awaited by anybody: they may be cancelled, or go on
-in the background (`settle_in_background`) -/
-def abandons : NodeSt → Bool
-  | doneErr | failed => true
+/-- started and not yet finished (busy, or cancelled and still unwinding) -/
+def pending : NodeSt → Bool
+  | wait _ | ready | run | failing | unwinding => true
   | _ => false
 
 /-- the children of the node have been started -/
@@ -129,10 +160,21 @@ def dataOf (root : Cfg) : Val :=
 
 /-! ## Launching (the synchronous part of starting a selection set / a list) -/
 
+namespace NodeSt
+def isFailed : NodeSt → Bool
+  | failed _ => true
+  | _ => false
+end NodeSt
+
 /-- some member has raised to the parent -/
 def hasFailed : Cfg → Bool
   | .nil => false
-  | .cons _ _ _ st _ rest => st == .failed || hasFailed rest
+  | .cons _ _ _ st _ rest => st.isFailed || hasFailed rest
+
+/-- some member has been started and has not finished yet -/
+def hasPending : Cfg → Bool
+  | .nil => false
+  | .cons _ _ _ st _ rest => st.pending || hasPending rest
 
 /-- the values of a forest all of whose members completed -/
 def forestVals : Cfg → Option Val
@@ -140,21 +182,23 @@ def forestVals : Cfg → Option Val
   | .cons _ _ _ st _ rest =>
     match st, forestVals rest with
     | .done v, some vs => some (.cons v vs)
-    | .doneErr, some vs => some (.cons .null vs)
+    | .doneErr _, some vs => some (.cons .null vs)
     | _, _ => none
 
-/-- state after handling an error at a position -/
-def errSt (nn : Bool) : NodeSt := if nn then .failed else .doneErr
+/-- state after handling an error at a position; `bg`: children are left running -/
+def errSt (nn : Bool) (bg : Bool) : NodeSt := if nn then .failed bg else .doneErr bg
 
 /-- A node whose awaitables have all completed runs up to its next await: `lch` are its
-children after launching them. -/
+children after launching them.  A child that raises synchronously while the children are being
+started aborts the loop: the node handles the error at once and the children that are already
+running are NOT cancelled (`settle_in_background`). -/
 def fireWith (nn : Bool) (res : Res) (ch lch : Cfg) : NodeSt × Cfg :=
   match res with
-  | .raise => (errSt nn, ch)
-  | .null => (if nn then .failed else .done .null, ch)
+  | .raise => (errSt nn false, ch)
+  | .null => (if nn then .failed false else .done .null, ch)
   | .leaf n => (.done (.leaf n), ch)
   | .comp _ =>
-    if hasFailed lch then (errSt nn, lch)
+    if hasFailed lch then (errSt nn (hasPending lch), lch)
     else match forestVals lch with
       | some v => (.done v, lch)
       | none => (.run, lch)
@@ -166,22 +210,18 @@ def launchF : Cfg → Cfg
   | .nil => .nil
   | .cons nn g res _ ch rest =>
     let r : NodeSt × Cfg := if g = 0 then fireWith nn res ch (launchF ch) else (.wait g, ch)
-    if r.1 = .failed then .cons nn g res r.1 r.2 rest
+    if r.1.isFailed then .cons nn g res r.1 r.2 rest
     else .cons nn g res r.1 r.2 (launchF rest)
 
-/-- Delivery of a cancellation to a task: the task and everything it awaits is cancelled;
-completed tasks and work that was already abandoned to the background are not touched. -/
-def cancelF : Cfg → Cfg
+/-- `gather_with_cancel` cancels the awaitables that are not done: every busy member becomes
+`unwinding`, and so does everything it awaits (the cancellation travels down the chain of
+awaited futures at once).  Completed tasks, and work below them that was abandoned to the
+background, are not touched. -/
+def cancelU : Cfg → Cfg
   | .nil => .nil
   | .cons nn g res st ch rest =>
-    if st.active then .cons nn g res .cancelled (cancelF ch) (cancelF rest)
-    else .cons nn g res st ch (cancelF rest)
-
-/-- cancellation of the head member only -/
-def cancelHead : Cfg → Cfg
-  | .nil => .nil
-  | .cons nn g res st ch rest =>
-    if st.active then .cons nn g res .cancelled (cancelF ch) rest else .cons nn g res st ch rest
+    if st.busy then .cons nn g res .unwinding (cancelU ch) (cancelU rest)
+    else .cons nn g res st ch (cancelU rest)
 
 /-! ## Transitions -/
 
@@ -206,42 +246,49 @@ def next : Label → Label := mapPath (fun p => match p with | [] => [] | i :: q
 def down : Label → Label := mapPath (fun p => 0 :: p)
 end Label
 
-/-- `Step ab f l f'`: forest `f` (whose parent abandons its children iff `ab`) makes one
-transition.  Paths address a member by its index in the forest, then downwards. -/
-inductive Step : Bool → Cfg → Label → Cfg → Prop where
+/-- `Step f l f'`: forest `f` makes one transition.  Paths address a member by its index in the
+forest, then downwards.
+
+The model of `gather_with_cancel` is: on the first child that raises, cancel the rest (`fail`),
+await them (`unwound` of every cancelled child, bottom-up), re-raise (`failDone`).  It is the
+algorithm the docstring of `gather_with_cancel` promises; the pinned implementation deviates
+when the awaiting task is itself cancelled (a cancelled gather does not wait for its children,
+and a gather cancelled while it waits cancels them a second time) - witnesses and repair in the
+C03 report. -/
+inductive Step : Cfg → Label → Cfg → Prop where
   /-- the environment completes one awaitable of the node -/
-  | resolve (ab nn g res k ch rest) :
-      Step ab (.cons nn g res (.wait (k + 1)) ch rest) (.resolve [0])
+  | resolve (nn g res k ch rest) :
+      Step (.cons nn g res (.wait (k + 1)) ch rest) (.resolve [0])
         (.cons nn g res (if k = 0 then .ready else .wait k) ch rest)
   /-- the node's task is resumed with the awaited value: complete the value, start children -/
-  | fire (ab nn g res ch rest) :
-      Step ab (.cons nn g res .ready ch rest) (.continue [0])
+  | fire (nn g res ch rest) :
+      Step (.cons nn g res .ready ch rest) (.continue [0])
         (.cons nn g res (fireWith nn res ch (launchF ch)).1 (fireWith nn res ch (launchF ch)).2 rest)
   /-- all awaited children completed -/
-  | complete (ab nn g res ch rest v) (h : forestVals ch = some v) :
-      Step ab (.cons nn g res .run ch rest) (.continue [0]) (.cons nn g res (.done v) ch rest)
-  /-- one awaited child raised (`gather` re-raises the first exception; the siblings are
-  abandoned: `gather_with_cancel` cancels them, see `cancel`).  The model settles the parent at
-  once and delivers the cancellations afterwards, a superset of both `gather_with_cancel`
-  (cancel, *wait until the cancelled siblings have finished*, re-raise) and of a synchronous
-  failure (`settle_in_background`: no cancellation at all).  Consequently "a cancelled sibling
-  has finished unwinding before the parent completes" is NOT expressed by `Step`; in the model
-  a cancelled or abandoned task simply does not count as live work (`liveQuiet`).  That the
-  implementation awaits the siblings it cancels is checked by the harness oracle (C03 serial
-  clause, strict reading), not proved here. -/
-  | fail (ab nn g res ch rest) (h : hasFailed ch = true) :
-      Step ab (.cons nn g res .run ch rest) (.continue [0]) (.cons nn g res (errSt nn) ch rest)
-  /-- a cancellation is delivered to an abandoned, still active member -/
-  | cancel (nn g res st ch rest) (h : st.active = true) :
-      Step true (.cons nn g res st ch rest) (.deliverCancel [0])
-        (.cons nn g res .cancelled (cancelF ch) rest)
+  | complete (nn g res ch rest v) (h : forestVals ch = some v) :
+      Step (.cons nn g res .run ch rest) (.continue [0]) (.cons nn g res (.done v) ch rest)
+  /-- one awaited child raised: `gather` re-raises the first exception into
+  `gather_with_cancel`, which cancels every awaitable that is not done and then waits -/
+  | fail (nn g res ch rest) (h : hasFailed ch = true) :
+      Step (.cons nn g res .run ch rest) (.continue [0]) (.cons nn g res .failing (cancelU ch) rest)
+  /-- an async-iterator list whose item fails while the iteration is still going: the loop is
+  aborted, the iterator closed, earlier items are left to `settle_in_background` (not
+  cancelled), later items are never requested -/
+  | abort (nn g ch rest) (h : hasFailed ch = true) :
+      Step (.cons nn g (.comp .aiter) .run ch rest) (.continue [0])
+        (.cons nn g (.comp .aiter) (errSt nn (hasPending ch)) ch rest)
+  /-- all cancelled children have finished: the gather node re-raises -/
+  | failDone (nn g res ch rest) (h : hasPending ch = false) :
+      Step (.cons nn g res .failing ch rest) (.continue [0]) (.cons nn g res (errSt nn false) ch rest)
+  /-- a cancelled task finishes, after everything it awaited has finished -/
+  | unwound (nn g res ch rest) (h : hasPending ch = false) :
+      Step (.cons nn g res .unwinding ch rest) (.deliverCancel [0]) (.cons nn g res .cancelled ch rest)
   /-- a step inside the children of a launched node -/
-  | child (ab nn g res st ch rest l ch') (hl : st.launched = true)
-      (h : Step st.abandons ch l ch') :
-      Step ab (.cons nn g res st ch rest) l.down (.cons nn g res st ch' rest)
+  | child (nn g res st ch rest l ch') (hl : st.launched = true) (h : Step ch l ch') :
+      Step (.cons nn g res st ch rest) l.down (.cons nn g res st ch' rest)
   /-- a step of a later member -/
-  | sibling (ab nn g res st ch rest l rest') (h : Step ab rest l rest') :
-      Step ab (.cons nn g res st ch rest) l.next (.cons nn g res st ch rest')
+  | sibling (nn g res st ch rest l rest') (h : Step rest l rest') :
+      Step (.cons nn g res st ch rest) l.next (.cons nn g res st ch rest')
 
 /-- The members before the first idle one have all completed and none has failed. -/
 def prefixDone : Cfg → Bool
@@ -249,7 +296,7 @@ def prefixDone : Cfg → Bool
   | .cons _ _ _ st _ rest =>
     match st with
     | .idle => true
-    | .done _ | .doneErr => prefixDone rest
+    | .done _ | .doneErr _ => prefixDone rest
     | _ => false
 
 /-- Start the first idle member (`async_reduce` calling the reducer for the next field). -/
@@ -274,7 +321,7 @@ def hasIdle : Cfg → Bool
 /-- Serial root (`execute_fields_serially`): members are started one after another, each only
 after all earlier ones completed; inside a member everything is as in `Step`. -/
 inductive SStep : Cfg → Label → Cfg → Prop where
-  | inner (f l f') (h : Step false f l f') : SStep f l f'
+  | inner (f l f') (h : Step f l f') : SStep f l f'
   | start (f) (h1 : prefixDone f = true) (h2 : hasIdle f = true) :
       SStep f (.start [firstIdle f]) (startNext f)
 
@@ -299,7 +346,7 @@ def nulledF (pfx : Path) (i : Nat) : Cfg → List Path
   | .nil => []
   | .cons _ _ res st ch rest =>
     (match st, res with
-      | .doneErr, _ => [pfx ++ [i]]
+      | .doneErr _, _ => [pfx ++ [i]]
       | .done _, .comp _ => if (forestVals ch).isSome then nulledF (pfx ++ [i]) 0 ch else []
       | _, _ => []) ++ nulledF pfx (i + 1) rest
 
@@ -326,6 +373,8 @@ def rank (g : Nat) : NodeSt → Nat
   | .wait k => k + 3
   | .ready => 3
   | .run => 2
+  | .failing => 1
+  | .unwinding => 1
   | _ => 0
 
 def measure : Cfg → Nat
@@ -351,12 +400,12 @@ def shape : Cfg → Cfg
 
 /-- A query: the root selection set wrapped as a nullable composite position (`data`), about
 to start its fields. Position `[0]` is `data`; `0 :: p` is response position `p`. -/
-def initQuery (fields : Cfg) : Cfg := .cons false 0 (.comp false) .ready fields .nil
+def initQuery (fields : Cfg) : Cfg := .cons false 0 (.comp .obj) .ready fields .nil
 
 /-- `data` of the response once the root has completed -/
 def rootData : Cfg → Option Val
   | .cons _ _ _ (.done v) _ _ => some v
-  | .cons _ _ _ .doneErr _ _ => some .null
+  | .cons _ _ _ (.doneErr _) _ _ => some .null
   | _ => none
 
 /-- the node at a position: (non-null, own outcome, state, children) -/
@@ -367,10 +416,23 @@ def nodeAt : Cfg → Path → Option (Bool × Res × NodeSt × Cfg)
   | .cons _ _ _ _ ch _, 0 :: j :: p => nodeAt ch (j :: p)
   | .cons _ _ _ _ _ rest, (i + 1) :: p => nodeAt rest (i :: p)
 
-/-- some member is in state `cancelled` -/
+/-- some member has been cancelled (finished or still unwinding) -/
 def hasCancelled : Cfg → Bool
   | .nil => false
-  | .cons _ _ _ st _ rest => st == .cancelled || hasCancelled rest
+  | .cons _ _ _ st _ rest => st == .cancelled || st == .unwinding || hasCancelled rest
+
+/-- Nothing is running or unwinding in the forest, except below a position that completed while
+its children were still running (`bg = true`): work that was abandoned and never cancelled. -/
+def QuietF : Cfg → Bool
+  | .nil => true
+  | .cons _ _ _ st ch rest =>
+    (match st with
+      | .idle => true
+      | .done _ => QuietF ch
+      | .doneErr bg => bg || QuietF ch
+      | .failed bg => bg || QuietF ch
+      | .cancelled => QuietF ch
+      | _ => false) && QuietF rest
 
 /-- an error propagates out of the forest through non-null positions only -/
 def reachesParent : Cfg → Bool
